@@ -26,6 +26,14 @@
    Round 7: C16_retry_endcollect; C16_nest_spec / C16_nest (populate prefix, both sources);
      C16_model_meets_spec_populate.  Missing for the full statement: addressing of the rows of
      populate_read / populate_write against z before / after the run, and the projection level.
+   Round 8: model: body action k_ref (an untraced getPayloadRef on the innermost fiber: a point
+     update without a row); flattened ranks are linearised exactly by the harness.  Proofs:
+     C16_populate_position, C16_populate_dest_rows (the (coordinate, position) arguments of the
+     populate_read / populate_write rows of a non-inserting traversal are exactly the oracle's
+     expect_at K_RD / K_WR lists against z before / after).  Missing for the full statement:
+     carrying that through the nest (final z of the run at each point; the inserting traversals
+     are left to the oracle's `appending` guard and need no addressing), the projection level,
+     and the k_ref body action in the proved class.
    NOT proved (checked by the oracle c16_holds on the implementation's files and, as verdict
    bit 4, on the model's files for every generated case): the hypotheses of C16_level_spec for
    `&` levels (yielded elements = lookup intersection, locality of its events) and for `<<`
@@ -36,7 +44,7 @@ From FT Require Import Model.Base Model.Obs Model.C16Metrics Model.C16Nest Model
                        Proofs.C16MetricsP Proofs.C16CheckP Proofs.C16AndP
                        Proofs.C16CoreP Proofs.C16RefP Proofs.C16NestP Proofs.C16PlainP
                        Proofs.C16AndLevelP Proofs.C16EagerP Proofs.C16GlueP Proofs.C16PopP
-                       Proofs.C16PopNestP Proofs.C16Glue2P.
+                       Proofs.C16PopNestP Proofs.C16Glue2P Proofs.C16PopPosP.
 Import ListNotations.
 Open Scope Z_scope.
 
@@ -150,7 +158,7 @@ Print Assumptions C16_level_spec.
    trees (explicit defaults and empty sub-fibers included), any traces - meets [spec]. *)
 Theorem C16_plain_nest_spec : forall zs n tr zshape nz m lv, forallb plain_level lv = true ->
   forall i pt e z, length pt = i -> labinv i z ->
-  spec zs tr n i lv pt e (fst (run tr zshape nz m lv i pt e z)).
+  spec zs tr n i lv pt e (fst (run false tr zshape nz m lv i pt e z)).
 Proof. exact plain_nest_spec. Qed.
 Print Assumptions C16_plain_nest_spec.
 
@@ -159,7 +167,7 @@ Print Assumptions C16_plain_nest_spec.
    to the reference iteration space with storage positions. *)
 Theorem C16_plain_nest : forall zs n tr zshape nz m lv keys m0 e z,
   forallb plain_level lv = true ->
-  let evs := fst (run tr zshape nz m lv 0 [] e {| th_z := z; th_lab := lab0 |}) in
+  let evs := fst (run false tr zshape nz m lv 0 [] e {| th_z := z; th_lab := lab0 |}) in
   let st' := exec n (init_state keys true m0) evs in
   let d := dr lv [([], e)] in
   m_lo st' = iota d
@@ -199,13 +207,13 @@ Print Assumptions C16_intersect_yields.
    counters of inner ranks reset), so the dynamic labels of `&` are 0 and 1. *)
 Theorem C16_eager_nest_spec : forall zs n tr zshape nz m lv, forallb eager_level lv = true ->
   forall i pt e z, length pt = i -> labinv i z -> env_ok e -> nest_int_ok tr i lv e ->
-  spec zs tr n i lv pt e (fst (run tr zshape nz m lv i pt e z)).
+  spec zs tr n i lv pt e (fst (run false tr zshape nz m lv i pt e z)).
 Proof. exact eager_nest_spec. Qed.
 Print Assumptions C16_eager_nest_spec.
 
 Theorem C16_eager_nest : forall zs n tr zshape nz m lv keys m0 e z,
   forallb eager_level lv = true -> env_ok e -> nest_int_ok tr 0 lv e ->
-  let evs := fst (run tr zshape nz m lv 0 [] e {| th_z := z; th_lab := lab0 |}) in
+  let evs := fst (run false tr zshape nz m lv 0 [] e {| th_z := z; th_lab := lab0 |}) in
   let st' := exec n (init_state keys true m0) evs in
   let d := dr lv [([], e)] in
   m_lo st' = iota d
@@ -234,7 +242,7 @@ Proof. vm_compute. auto. Qed.
    no populate level ([eager_level]: `for` over a compressed or uncompressed fiber, or
    `for .. in x & y`, x <> y, compressed or uncompressed - every non-populate level the model has). *)
 Theorem C16_model_meets_spec_partial : forall c,
-  c16_wf c = true -> c16_region c = 0 -> forallb eager_level (k_levels c) = true ->
+  c16_wf c = true -> c16_region c = 0 -> forallb eager_level (k_levels c) = true -> k_ref c = false ->
   c16_holds c (c16_model c) = true.
 Proof. exact model_meets_spec_eager. Qed.
 Print Assumptions C16_model_meets_spec_partial.
@@ -246,7 +254,7 @@ Example C16_model_meets_spec_partial_nonvacuous :
                             Node [(0, Node [(1, Leaf 3)]); (1, Node [(0, Leaf 1)]); (2, Node [(0, Leaf 4); (1, Leaf 5)])] ];
               k_z := Node []; k_zshape := []; k_skip := 0;
               k_keys := [(0,0,0); (0,1,0); (0,1,1); (1,0,0); (1,3,0); (2,0,0)];
-              k_thresholds := [2; 1000] |} in
+              k_thresholds := [2; 1000]; k_ref := false |} in
   c16_wf c = true /\ c16_region c = 0 /\ forallb eager_level (k_levels c) = true.
 Proof. vm_compute. auto. Qed.
 
@@ -345,13 +353,13 @@ Print Assumptions C16_retry_endcollect.
 Theorem C16_nest_spec : forall n tr zshape m lv, pnest lv = true ->
   forall nz i pt e z, length pt = i -> nz = (i + n_pop lv)%nat -> labinv i z -> zty (n_pop lv) z ->
   env_ok e -> nest_pos_ok tr i lv e ->
-  spec false tr n i lv pt e (fst (run tr zshape nz m lv i pt e z)).
+  spec false tr n i lv pt e (fst (run false tr zshape nz m lv i pt e z)).
 Proof. exact pnest_spec_gen. Qed.
 Print Assumptions C16_nest_spec.
 
 Theorem C16_nest : forall n tr zshape m lv keys m0 e zt,
   pnest lv = true -> depth_ok (n_pop lv) zt = true -> env_ok e -> nest_pos_ok tr 0 lv e ->
-  let evs := fst (run tr zshape (n_pop lv) m lv 0 [] e {| th_z := Some zt; th_lab := lab0 |}) in
+  let evs := fst (run false tr zshape (n_pop lv) m lv 0 [] e {| th_z := Some zt; th_lab := lab0 |}) in
   let st' := exec n (init_state keys true m0) evs in
   let d := dr lv [([], e)] in
   m_lo st' = iota d
@@ -365,7 +373,7 @@ Print Assumptions C16_nest.
    populate_write) trace. *)
 Theorem C16_model_meets_spec_populate : forall c,
   c16_wf c = true -> c16_region c = 0 -> pnest (k_levels c) = true ->
-  forallb (fun k => negb (is_zside (key_kind k))) (k_keys c) = true ->
+  forallb (fun k => negb (is_zside (key_kind k))) (k_keys c) = true -> k_ref c = false ->
   c16_holds c (c16_model c) = true.
 Proof. exact model_meets_spec_pnest. Qed.
 Print Assumptions C16_model_meets_spec_populate.
@@ -377,10 +385,47 @@ Example C16_model_meets_spec_populate_nonvacuous :
                             Node [(0, Node [(1, Leaf 3)]); (1, Node [(0, Leaf 1)]); (2, Node [(0, Leaf 4); (1, Leaf 5)])] ];
               k_z := Node [(1, Leaf 7); (3, Leaf 2)]; k_zshape := [4]; k_skip := 0;
               k_keys := [(0,0,0); (0,1,2); (0,1,3); (0,2,1); (1,0,0)];
-              k_thresholds := [2; 1000] |} in
+              k_thresholds := [2; 1000]; k_ref := false |} in
   c16_wf c = true /\ c16_region c = 0 /\ pnest (k_levels c) = true
   /\ forallb (fun k => negb (is_zside (key_kind k))) (k_keys c) = true.
 Proof. vm_compute. auto. Qed.
+
+(* C16_populate_position: the position the populate generator computes for a source coordinate in
+   a strictly sorted destination fiber (all elements before the running position below the
+   coordinate) is the number of stored coordinates below it, and the element is new iff the
+   coordinate is not stored. *)
+Theorem C16_populate_position : forall r la lb rt wt bt zl cm ip j c st,
+  ssorted_f (p_z st) -> 0 <= p_apos st -> (Z.to_nat (p_apos st) <= length (p_z st))%nat ->
+  Forall (fun ct => fst ct < c) (firstn (Z.to_nat (p_apos st)) (p_z st)) ->
+  let x := pop_elem r la lb rt wt bt zl cm ip j c st in
+  snd (fst (fst (fst x))) = rank_in c (p_z st)
+  /\ pe_new x = negb (mem_fib c (p_z st)).
+Proof. exact pop_elem_position. Qed.
+Print Assumptions C16_populate_position.
+
+(* C16_populate_dest_rows: destination-side addressing of one populate traversal that does not
+   insert (uncompressed destination, or first source coordinate not below the last stored one -
+   Check.appending): whatever the bodies do to the payloads, the addUse arguments of its
+   populate_read rows are (c, rank of c in the final fiber) for the source coordinates stored
+   before, those of its populate_write rows the same for the coordinates stored afterwards -
+   the lists expect_at gives for K_RD / K_WR - and the final fiber is strictly sorted. *)
+Theorem C16_populate_dest_rows : forall r la lb rt wt bt zl cm ip (body : body_t) els zes oe isp ls,
+  ssorted_f zes ->
+  match els with [] => True | el :: els' => inc_from (elc el) (map elc els') end ->
+  (cm = true -> match last_coord zes, els with
+                | Some m, el :: _ => (elc el <? m) = false
+                | _, _ => True end) ->
+  Forall (fun el => kuses K_RD la (fst el) = []) els ->
+  let st := {| p_z := zes; p_apos := 0; p_ins := false; p_oldend := oe; p_toins := []; p_isp := isp |} in
+  let res := pop_loop r la lb rt wt bt zl cm ip body els 0 st ls in
+  let zf := p_z (fst (snd res)) in
+  ssorted_f zf
+  /\ flat_map (fun it => kuses K_RD la (it_pre it)) (fst res)
+     = flat_map (fun el => if rt && mem_fib (elc el) zes then [(elc el, rank_in (elc el) zf)] else []) els
+  /\ flat_map (fun it => suses K_WR la (it_post it)) (fst res)
+     = flat_map (fun el => if wt && mem_fib (elc el) zf then [(elc el, rank_in (elc el) zf)] else []) els.
+Proof. exact pop_loop_noins_init. Qed.
+Print Assumptions C16_populate_dest_rows.
 
 (* C16_model_meets_spec, full statement (NOT proved):
      forall c, c16_wf c = true -> c16_region c = 0 -> c16_holds c (c16_model c) = true
@@ -402,7 +447,7 @@ Definition c16_sample : c16_case :=
      k_zshape := [4];
      k_skip := 0;
      k_keys := [(0,0,0); (0,1,2); (0,1,3); (0,2,1); (0,3,0); (0,4,0); (1,0,0)];
-     k_thresholds := [2; 3; 1000] |}.
+     k_thresholds := [2; 3; 1000]; k_ref := false |}.
 
 Example C16_model_meets_spec_sample :
   c16_wf c16_sample = true /\ c16_region c16_sample = 0
@@ -416,7 +461,7 @@ Definition c16_witness : c16_case :=
   {| k_levels := [ {| l_pop := false; l_src := SAnd 0 1; l_ufmt := false; l_zufmt := false; l_proj := None; l_shape := 4 |} ];
      k_inputs := [ Node [(1, Leaf 7)]; Node [(0, Leaf 0); (1, Leaf 7)] ];
      k_z := Node []; k_zshape := []; k_skip := 0;
-     k_keys := [(0, 1, 1)]; k_thresholds := [4] |}.
+     k_keys := [(0, 1, 1)]; k_thresholds := [4]; k_ref := false |}.
 
 Theorem C16_positions_refuted : exists c,
   c16_wf c = true /\ c16_region c = 1 /\ c16_holds c (c16_model c) = false.
